@@ -195,5 +195,26 @@ Section BufConsumer.
         let '(c'', rs') := bcdeliver fuel c' chs in
         (c'', rs ++ rs')
     end.
+
+  (* the same deliveries seen round by round: every element is what one recv_into wrote (at most the view) *)
+  Fixpoint bcfills (fuel : nat) (c : bcstate) (fills : list bytes) : bcstate * list (nres P) :=
+    match fills with
+    | [] => (c, [])
+    | d :: ds =>
+        let '(c', rs, _) := bcstep fuel c d in
+        let '(c'', rs') := bcfills fuel c' ds in
+        (c'', rs ++ rs')
+    end.
+
+  (* size of the view get_write_buffer() would export now, and "every fill is non-empty and fits the view it is
+     written into" — what recv_into guarantees *)
+  Definition view_len (c : bcstate) : nat :=
+    match snd (bc_get_write_buffer c) with Some (_, len) => len | None => 0 end.
+
+  Fixpoint fills_fit (fuel : nat) (c : bcstate) (fills : list bytes) : Prop :=
+    match fills with
+    | [] => True
+    | d :: ds => d <> [] /\ length d <= view_len c /\ fills_fit fuel (fst (fst (bcstep fuel c d))) ds
+    end.
 End BufConsumer.
 Arguments bmem {P F}. Arguments bstart {P F}. Arguments balready {P F}. Arguments bexported {P F}. Arguments bcons {P F}.
